@@ -297,7 +297,13 @@ func visitInstr(fr *frame, instr ssa.Instruction) continuation {
 		}
 
 	case *ssa.Go:
-		fr.i.path.unsupported("go statement")
+		// A goroutine started by the code under test is modelled as not yet
+		// scheduled for as long as the harness runs - a schedule the Go
+		// runtime is always free to choose (GOMAXPROCS=1, busy caller). Code
+		// that depends on the new goroutine having run already is exposed;
+		// code that waits for it blocks and ends the path as unsupported.
+		fn, args := prepareCall(fr, &instr.Call)
+		fr.i.path.pendingGo = append(fr.i.path.pendingGo, pendingGoroutine{fn, args})
 
 	case *ssa.MakeChan:
 		fr.env[instr] = make(chan value, asInt64(fr.get(instr.Size))+1)
